@@ -16,7 +16,7 @@ ID = 'C12'
 MANIFEST = {
     'engine': 'symx',
     'text': 'Solver-based check of the real transformer tables and the real construct_new_features / FeatureTransformerGeneric source: (1) every expression string of the minimal, default and fw tables is evaluated on an array of free real variables with sqrt/log/round and non-linear products as uninterpreted functions and z3 shows it equal, for ALL real X, to the function its name denotes (fw: resolution and threshold parsed from the name); (2) the keep/drop rule is explored over all token patterns of columns with 4 and 5 rows (hitting both thresholds exactly) through the real function with real numpy; (3) every preset list of up to 3 of the six preset names must select the union of the presets; (4) the numeric parse is explored over all strings of <=3 characters from a small alphabet.',
-    'note': 'Reals instead of floats (NaN/inf propagation and rounding outside); sqrt/log/round uninterpreted (sound for proving equality; a difference would have to reproduce concretely before being reported); text form of floats not modelled; conditions 2-4 concretise their inputs through solver decisions (bounded exhaustive).',
+    'note': 'Reals instead of floats (NaN/inf propagation and rounding outside); sqrt/log/round uninterpreted (sound for proving equality; a difference would have to reproduce concretely before being reported); text form of floats not modelled; the keep/drop tokens include -0.0 and 0.0 (numerically equal, textually different); conditions 2-4 concretise their inputs through solver decisions (bounded exhaustive).',
     'technique': 'z3 QF_UFLRA equivalence of the repository\'s expression strings with name-derived reference functions over free reals; bounded symbolic exploration of the keep/drop rule, preset merge and parse',
 }
 
